@@ -5,7 +5,8 @@
     implementation on every run). *)
 From Coq Require Import ZArith List Bool.
 From Hts Require Import Base.Prim Generated Model.Index Model.Tabix Model.IndexSpec Model.IndexIO
-  Proofs.IndexStats Proofs.IndexIO Proofs.IndexIOFull Proofs.IndexFinal Proofs.TabixIO.
+  Model.Csi Model.TabixSpec Proofs.IndexStats Proofs.IndexIO Proofs.IndexIOFull Proofs.IndexFinal Proofs.TabixIO
+  Proofs.CsiStats Proofs.CsiIO Proofs.IndexFinal2.
 Open Scope Z_scope.
 
 (** Statistics are true: for EVERY record list that Add accepts (whatever its
@@ -67,38 +68,59 @@ Theorem tabix_io_roundtrip :
 Proof. exact (fun t H => conj (tbx_read_write t H) (tbx_write_read_write t)). Qed.
 Print Assumptions tabix_io_roundtrip.
 
-(** Answers are preserved: an index whose reference structure is that of the
-    sorted index (this is what write followed by read produces, whatever
-    LastRecord is) answers every query exactly like the original.
-    PARTIAL: for BAI and tabix the premise [irefs ix2 = irefs (ix_sort ix)] is
-    discharged by [index_io_roundtrip] / [tabix_io_roundtrip] (see
-    [chunks_preserved] and C04's [tabix_complete_after_write_read]); for CSI
-    [ix2 = read (write ix)] is validated by the correspondence run only. *)
-Theorem chunks_preserved_partial :
-  forall ix ix2 rid beg end_,
-    irefs ix2 = irefs (ix_sort ix) -> isorted ix2 = true ->
-    fst (ix_chunks ix2 rid beg end_) = fst (ix_chunks ix rid beg end_).
-Proof. exact chunks_of_sorted_copy. Qed.
-Print Assumptions chunks_preserved_partial.
+(** CSI, byte level, versions 1 and 2, any auxiliary bytes, for EVERY index
+    with [csi_fits (cs_sort ix)] (version 1 or 2, a geometry the reader
+    accepts, numbers fit their fields, sorted order after sort): ReadFrom of
+    what WriteTo wrote is [cs_reread ix] — the sorted index, except that the
+    per-bin record counts, which version 1 does not store, come back as 0 —
+    and writing that gives the same bytes. *)
+Theorem csi_io_roundtrip :
+  forall ix, csi_fits (cs_sort ix) ->
+    csi_read (fst (csi_write ix)) = Ok (Some (cs_reread ix)) /\
+    fst (csi_write (cs_reread ix)) = fst (csi_write ix).
+Proof. exact (fun ix H => conj (csi_read_write ix H) (csi_write_read_write ix)). Qed.
+Print Assumptions csi_io_roundtrip.
 
-(** Statistics are preserved under the same premise. *)
-Theorem stats_preserved_partial :
-  forall ix ix2,
-    irefs ix2 = irefs (ix_sort ix) -> iunm ix2 = iunm ix ->
-    ix_numrefs ix2 = ix_numrefs ix /\ iunm ix2 = iunm ix /\
-    forall rid, ix_refstats ix2 rid = ix_refstats ix rid.
-Proof. exact stats_of_sorted_copy. Qed.
-Print Assumptions stats_preserved_partial.
+(** CSI built by Add (any geometry, aux, version; any accepted record list)
+    with [csi_ranges]: round trip, identical answers, identical NumRefs,
+    unplaced count and ReferenceStats before and after. *)
+Theorem csi_chunks_preserved :
+  forall ms dp aux ver rs ix,
+    cs_fold_add (mkCsi aux ver [] None ms dp false 0) rs = Ok ix -> csi_ranges ix ->
+    csi_read (fst (csi_write ix)) = Ok (Some (cs_reread ix)) /\
+    fst (csi_write (cs_reread ix)) = fst (csi_write ix) /\
+    (forall rid beg end_, fst (cs_chunks (cs_reread ix) rid beg end_) = fst (cs_chunks ix rid beg end_)) /\
+    cs_numrefs (cs_reread ix) = cs_numrefs ix /\ c_unm (cs_reread ix) = c_unm ix /\
+    (forall rid, cs_refstats (cs_reread ix) rid = cs_refstats ix rid).
+Proof. exact csi_io_preserves. Qed.
+Print Assumptions csi_chunks_preserved.
 
-(** Byte level building block shared by the three formats (PARTIAL with
-    respect to CSI and tabix, whose full round trip is not proved): every chunk
-    list that fits its fields is read back, sorted by begin offset, and the
-    reader stops exactly at its end. *)
-Theorem index_io_roundtrip_partial :
-  forall cs rest, Forall chunk_fits cs -> zlen cs < 2 ^ 31 ->
-    (n <- rd_i32 ;; rd_chunks n) (wr_chunks cs ++ rest) = Ok (ix_isort fst cs, rest).
-Proof. exact chunks_roundtrip. Qed.
-Print Assumptions index_io_roundtrip_partial.
+(** Statistics are true for CSI: for EVERY record list csi.Index.Add accepts
+    (any geometry): NumRefs, unplaced count, per-reference span and counts. *)
+Theorem csi_stats_true :
+  forall ms dp aux ver rs ix,
+    cs_fold_add (mkCsi aux ver [] None ms dp false 0) rs = Ok ix ->
+    cs_numrefs ix = ix_true_numrefs rs /\
+    (rs <> [] -> c_unm ix = Some (ix_true_unplaced rs)) /\
+    (rs = [] -> c_unm ix = None) /\
+    forall rid, 0 <= rid -> cs_refstats ix rid = ix_true_stats rid rs.
+Proof. exact CsiStats.csi_stats_true. Qed.
+Print Assumptions csi_stats_true.
+
+(** Statistics are true for tabix (reference ids are the dense ids of the
+    names, [tb_assign]) and are unchanged by WriteTo/ReadFrom. *)
+Theorem tabix_stats_true :
+  forall hdr nrs, ix_wf (tb_assign [] nrs) ->
+  exists t, tb_fold_add (tb_new hdr) nrs = Ok t /\
+    let rs := tb_assign [] nrs in
+    (ix_numrefs (t_idx t) = ix_true_numrefs rs /\
+     (nrs <> [] -> iunm (t_idx t) = Some (ix_true_unplaced rs)) /\
+     (forall rid, 0 <= rid -> ix_refstats (t_idx t) rid = ix_true_stats rid rs)) /\
+    (ix_numrefs (t_idx (tbx_reread t)) = ix_numrefs (t_idx t) /\
+     iunm (t_idx (tbx_reread t)) = iunm (t_idx t) /\
+     forall rid, ix_refstats (t_idx (tbx_reread t)) rid = ix_refstats (t_idx t) rid).
+Proof. exact tabix_stats. Qed.
+Print Assumptions tabix_stats_true.
 
 (** The tabix index without references (formerly read back as "no index, no
     error"; repaired on main) round-trips: it is written with n_ref = 0 and an
